@@ -277,11 +277,11 @@ def r2(ctx, r):
         ok = len(pcs) == 1 and len(calls) == 1
         if ok:
             b = calls[0].block
-            c = strip_casts(b.cond) if b.cond is not None else None
-            ok = c is not None and c.get("k") == "un" and c.get("op") == "!" and strip_casts(c["v"]) is calls[0].node
+            c, st, sf = common.branch(b) if b.cond is not None else (None, None, None)
+            ok = c is not None and c is calls[0].node and sf is not None
             if ok:
                 # on failure nothing uses the (unset) size: the arm leaves the loop / function
-                els = _reach_until_ret(f, b.succs[0])
+                els = _reach_until_ret(f, sf)
                 ok = not any(x.kind == "stmt" and any(y.get("k") == "var" and y["n"] == "chunkSize" for y in walk(x.node)) for x in els[:8])
         r.expect(ok, f, calls[0] if calls else None, "chunk size parse", "%s does not parse chunk-size lines through the strict HttpResponse::parseChunkSizeLine with a terminal failure arm" % nm, okdesc="%s: strict chunk-size parse, failure is terminal" % nm)
     h0 = fn(ctx, HS, "handleIncomingData", HSF)
@@ -877,10 +877,12 @@ def r8(ctx, r):
     flag = key_of(asg(dv[0].node)[0]) if dv else None
     if flag:
         for b in h.blocks.values():
-            if b.cond is not None and key_of(strip_casts(b.cond).get("v") if strip_casts(b.cond).get("k") == "un" else None) == flag and search(h, dv[0], lambda x, b=b: x.block is b, eh=False) is not None:
-                arm = _reach_until_ret(h, b.succs[0])
-                if any(x.kind == "stmt" and x.node.get("k") == "mcall" and last(x.node.get("callee", "")) == "sendErrorResponse" and const_value(strip_casts(x.node["args"][1])) == 400 for x in arm) and \
-                        any(x.kind == "stmt" and x.node.get("k") == "ret" for x in arm):
+            bc, bst, bsf = common.branch(b) if b.cond is not None else (None, None, None)
+            if bc is not None and bsf is not None and key_of(bc) == flag and search(h, dv[0], lambda x, b=b: x.block is b, eh=False) is not None:
+                arm = _reach_until_ret(h, bsf)
+                is400 = lambda x: x.kind == "stmt" and x.node.get("k") == "mcall" and last(x.node.get("callee", "")) == "sendErrorResponse" and const_value(strip_casts(x.node["args"][1])) == 400
+                # EVERY way on from the `not chunked` side passes the 400 (a later `if (isChunked) … else <frame by Content-Length>` does not qualify)
+                if any(is400(x) for x in arm) and any(x.kind == "stmt" and x.node.get("k") == "ret" for x in arm) and search(h, ("block", bsf), "exit", stop=is400, eh=False) is None:
                     okrej = True
     r.expect(okrej, h, dv[0] if dv else None, "unsupported transfer coding framed", "a Transfer-Encoding that is not exactly `chunked` does not end in 400 + return: its body length is guessed", okdesc="Transfer-Encoding ≠ chunked → 400")
     dec = [e for e in p.stmts() if asg(e.node) and show(strip_casts(asg(e.node)[0])) == "req.body" and "parseChunkedBody" in show(asg(e.node)[1])]
